@@ -207,6 +207,18 @@ pub fn compare(e: &Expect, bytes: &[u8], define: bool) -> Vec<(String, String)> 
 }
 
 pub fn run(ctx: &mut Ctx) {
+    crate::witness::for_each(ctx, |ctx, case, script, lib, built| {
+        let input = json!({"witness": script.name, "library": witgen::library_text(lib), "ops": compose::ops_json(&built.ops)});
+        let e = Expect { graph: &built.graph, exported: &built.exported };
+        for define in [true, false] {
+            if let Outcome::Ok(bytes) = encode_outcome(&built.graph, define, false) {
+                ctx.eval();
+                for (sig, detail) in compare(&e, &bytes, define) {
+                    ctx.violation(case, &format!("C02:{sig}"), detail, input.clone());
+                }
+            }
+        }
+    });
     let total = ctx.n(20_000, 2_000_000);
     for case in ctx.cases(total) {
         if ctx.out_of_budget() {
